@@ -24,6 +24,8 @@ def hostile_screen_kwargs(rng, n=None, arity=None, max_names=6):
     """Constructor arguments of a hostile screen (for C01/C02)."""
     if n is None:
         n = int(rng.integers(1, 41))
+        if rng.random() < 0.004:
+            n = int(rng.choice([257, 1000, 2049, 4097]))  # beyond any plausible internal block size
     if arity is None:
         arity = int(rng.integers(1, 4))
     control = str(rng.choice(HOSTILE_NAMES)) if rng.random() < 0.7 else ""
